@@ -25,26 +25,44 @@ CONFIG = {
               "C11_unit_then_count (execute_query on the edited vector, every strategy, every Clean state: MCA C n (l :: A)), "
               "C11_unit_then_sat, C11_unit_then_core (syntactic core = literals in all models containing l); enumeration and "
               "sampling follow the same way from C06 / C07 (which take WFQ of the vector as hypothesis); "
-              "reduce_clause (C11_reduce_clause, _skipped, _kept, C11_prepare_no_panic); the dispatch conditions decidable without "
-              "the graph (C11_dispatch_nothing / _cache_hit / _unit / _empty_store, C11_cache_matches_inverse); the specification "
+              "reduce_clause (C11_reduce_clause, _skipped, _kept, C11_prepare_no_panic); the specification "
               "(C11_edit_spec_add: adding is conjunction, tautologies and duplicates absorbed; C11_edit_spec_rmv; "
               "C11_edit_spec_features). "
+              "The model follows /repo AFTER the repairs F14-F17 (K23, K25, K26, K34; repo_patches/C11-K*.patch); `_v0` definitions = "
+              "the code before them, kept only for the witnesses. FULL for the repaired code paths: the dispatch conditions decidable "
+              "without the graph (C11_dispatch_nothing / _cache_hit / _empty_store; C11_dispatch_unit + C11_dispatch_unit_iff: the unit "
+              "path is taken exactly for one added unit clause over an existing variable with NOTHING to remove and no cache hit; "
+              "C11_dispatch_removal_not_unit: an edit with removals never takes the unit path; C11_dispatch_v0_same_without_removal); the "
+              "undo cache predicate and keys (C11_cache_matches_inverse, C11_cache_matches_iff_inverse: a request matches an entry iff "
+              "its added / removed clauses are, as sets of literal sets, the entry's removed / added clauses; C11_cache_find_inverse; "
+              "C11_cache_matches_v0_weaker; C11_unit_edit_clears_cache + C11_no_undo_after_unit: the edit after a unit edit is never "
+              "answered Undo); the retain step of adjust_intern_cnf (C11_retain_removes_exactly, C11_retain_is_filter, "
+              "C11_retain_is_edit_spec: it is the removal step of the specification for any number of removed clauses; "
+              "C11_adjust_removal_is_edit_spec: on a stored list of duplicate-free, non-tautological, non-unit clauses the whole of "
+              "adjust_intern_cnf is the specification's removal; C11_retain_v0_single). "
               "REFUTED on the faithful model (vm_compute witnesses): C11_unit_core_refuted (K4: dead branch after a unit edit, vector "
-              "neither no_dead nor smooth, syntactic core under-reports), C11_cache_matches_partial_refuted (K25), "
-              "C11_removal_after_simplify_refuted (K8), C11_multi_removal_refuted (K23). "
+              "neither no_dead nor smooth, syntactic core under-reports), C11_removal_after_simplify_refuted (K8), "
+              "C11_recompile_adjusts_twice_refuted (K38: an edit answered Recompile adjusts the stored list twice and loses a clause "
+              "shortened to a removed one). About the code BEFORE the repairs: C11_multi_removal_refuted_v0 (K23), "
+              "C11_cache_matches_partial_refuted_v0 (K25), C11_dispatch_unit_drops_removal_v0 (K26), "
+              "C11_undo_stale_after_unit_refuted_v0 (K34). "
               "With dead nodes after the edit (K4 class, about 1 % of the unit edits of the run) only C11_unit_sem / C11_unit_count "
               "speak about the vector; check_wf is then evaluated per dumped vector modulo dead or-children (strip_dead) and every "
               "answer is judged by the truth table. "
               "SPEC + CORRESPONDENCE ONLY (not modelled): closest_unsplitable_bridge, find_bridges, divide_bridge, "
               "transform_to_cnf_from_starting_cnf, switch_sub_dag, recompile_everything, the undo cache contents - every answer after "
               "every edit is judged against the truth table of edit_spec on the source formula. "
-              "On the current tree the property FAILS in 18 recorded input classes (K3 K4 K8 K20-K34), each with its own signature; every one is re-established on every run by a minimal history (corpus in harness/src/k_c11.rs)",
+              "On /repo + F14-F17 the property FAILS in 17 recorded input classes (K3 K4 K8 K20-K22 K24 K27-K33 K35 K37 K38), each with "
+              "its own signature; every one is re-established on every run by a minimal history (corpus in harness/src/k_c11.rs). "
+              "K23 K25 K26 K34 are `fixed:`; their signatures stay as DETECTORS without a finding line (an occurrence is a VIOLATION). "
+              "Against a tree WITHOUT the four repairs the check reports VIOLATION (edit:undo-stale, edit:undo-partial-match, "
+              "edit:unit-add-drops-removal, wrong counts after multi-clause removals) and dispatch DIFFs",
     "assumptions": [
         "theorems are about the Gallina model Model/Edit.v; tied to /repo by: unit_edit = the dumped node vector after every UnitClause "
         "step (exact vector equality), reflatten = identity on every dumped vector (validates the DfsPostOrder model), reduce_clause on "
         "every edit clause and on random (clause, decisions) pairs (as sets: the Rust returns HashSet order), prepare + dispatch = the "
-        "returned IncrementalStrategy whenever the facts (cache content, stored clause list via the model of simplify_clauses / "
-        "adjust_intern_cnf, IntermediateGraph.number_of_variables, root == node 0) are known",
+        "returned IncrementalStrategy whenever the facts (cache content via cache_find / cache_after_unit, stored clause list via the "
+        "model of simplify_clauses / adjust_intern_cnf / recompile_stored, IntermediateGraph.number_of_variables, root == node 0) are known",
         "unit_edit removes every leaf of the complementary literal; the Rust removes the one in literals_nx - equal under unique_leaves, which check_wf establishes per loaded input",
         "oracle independent of the model: plain truth tables (bit masks) of edit_spec on the source formula - nnf mode: the source's "
         "model list conjoined with the unit clause over n' = max n |l| features, the inverse edit must restore the previous answers; "
@@ -64,12 +82,19 @@ CONFIG = {
         "that stay satisfiable; (iii) reduce_clause directly",
         "the stand-in compiler (harness/src/cnfc.rs, gen.rs) replaces d4 for every compilation ddnnife performs (load and recompile); its contract (output denotes the CNF) is checked by the oracle at the load step of every history",
         "signatures name the input class of the first failing step (chk_c11.ml, fixed order): mode nnf: new-variable-clause (K3), "
-        "nnf-recompile-forgets-model (K20), nnf-removal (K21), dead-branch-core (K4); mode cnf: undo-stale (K34), undo-partial-match (K25), "
-        "after-undo-stale-cnf (K22; :panic K33), clause-removal (K8), multi-clause-removal (K23), add-on-empty-cnf (K27), "
-        "unit-add-drops-removal (K26), removal-frees-core (K24), new-variable-subdag (K29), free-feature-subdag (K28), "
-        "subdag-after-unit-edit (K30), unit-after-subdag (K32), panic-after-unit-edit (K31), dead-branch-core (K4); a failing step "
+        "nnf-recompile-forgets-model (K20), nnf-removal (K21; :panic K35), dead-branch-core (K4); mode cnf: detectors first (no finding "
+        "line, named by the observable misbehaviour: undo-stale-after-entry, undo-stale (was K34), undo-partial-match (was K25), "
+        "unit-add-drops-removal = UnitClause answered for an edit with removals (was K26)), then after-undo-stale-cnf (K22; :panic K33), "
+        "clause-removal (K8; :panic K37), recompile-removes-shortened-clause (K38: Recompile and a second application of the edit to the "
+        "source clause set changes the formula), add-on-empty-cnf (K27: empty clause set and an edit that does not take the unit path, "
+        "since F16 also a unit clause that comes with removals), removal-frees-core (K24), new-variable-subdag (K29), free-feature-subdag "
+        "(K28), subdag-after-unit-edit (K30), unit-after-subdag (K32), panic-after-unit-edit (K31), dead-branch-core (K4); a failing step "
         "without a class of its own inherits the first class met earlier in its history (a wrong stored clause list shows later); anything else is reported under edit:wrong-count / wrong-core / "
         "wrong-enumeration / wrong-sample / feature-count / inverse-not-restored / panic / load-wrong and is a VIOLATION",
+        "model-side bookkeeping of the checker (decides only which dispatch facts are known, never a verdict): stored clause list = "
+        "adjust_intern_cnf per step (recompile_stored = two rounds for Recompile), cache keys = cache_find over the pushed entries, "
+        "emptied by every unit edit (cache_after_unit), unknown after a sub-DAG replacement pushed onto a non-empty cache (retain_push "
+        "depends on the cached graphs)",
     ],
     "rule": "one case = one history (load + edits with the battery after each) or the reduce_clause table; non-trivial when some dumped "
             "vector has an And and an Or node; distinct = different case body (sha1)",
